@@ -61,6 +61,12 @@ BYTES_CAP_TABLE = [
     ("pe", ["delayed_import_details", "*", "library_name"], "pe.rs", "MAX_IMPORT_DLL_NAME_LENGTH"),
 ]
 
+# Published integers bounded by a documented maximum (totals over several collections).
+INT_CAP_TABLE = [
+    ("pe", ["number_of_imported_functions"], "pe.rs", "MAX_PE_IMPORTS"),
+    ("pe", ["number_of_delayed_imported_functions"], "pe.rs", "MAX_PE_IMPORTS"),
+]
+
 # Counters that are *not* `number_of_<collection>` by name but are documented as the size of a collection the
 # module builds (not raw header fields).  (module, prefix, counter, collection)
 EXTRA_COUNT_PAIRS = [
@@ -563,7 +569,7 @@ def translate(repo="/repo", harness_toml=None):
     harness_toml = harness_toml or os.path.join(os.path.dirname(os.path.dirname(os.path.abspath(__file__))),
                                                 "harness", "Cargo.toml")
     feats = enabled_features(repo, harness_toml)
-    info = {"features": sorted(feats), "modules": {}, "static_functions": {}, "caps": [], "bytes_caps": [],
+    info = {"features": sorted(feats), "modules": {}, "static_functions": {}, "caps": [], "bytes_caps": [], "int_caps": [],
             "count_pairs": {}, "header_counters": [list(x) for x in HEADER_COUNTERS]}
     for name, rel in MODULES:
         path = os.path.join(repo, "boreal", "src", "module", rel)
@@ -583,6 +589,11 @@ def translate(repo="/repo", harness_toml=None):
     for m, p, rel, cname in BYTES_CAP_TABLE:
         resolve(info["modules"][m], p, "bytes cap table %s.%s" % (m, ".".join(p)))
         info["bytes_caps"].append([m, p, cname, extract_const(repo, rel, cname)])
+    for m, p, rel, cname in INT_CAP_TABLE:
+        t = resolve(info["modules"][m], p, "int cap table %s.%s" % (m, ".".join(p)))
+        if t["t"] != "integer":
+            raise TranslateError("int cap table: %s.%s is not an integer" % (m, ".".join(p)))
+        info["int_caps"].append([m, p, cname, extract_const(repo, rel, cname)])
     return info
 
 
@@ -621,6 +632,10 @@ def render(info):
     L.append("")
     L.append("Definition bytes_caps : list (string * list step * N) :=\n  [%s]." % ";\n   ".join(
         "(%s, %s, %d) (* %s *)" % (g_str(m), g_path(p), v, c) for m, p, c, v in info["bytes_caps"]))
+    L.append("")
+    L.append("(* published integers (totals) bounded by a documented maximum *)")
+    L.append("Definition int_caps : list (string * list step * N) :=\n  [%s]." % ";\n   ".join(
+        "(%s, %s, %d) (* %s *)" % (g_str(m), g_path(p), v, c) for m, p, c, v in info["int_caps"]))
     L.append("")
     return "\n".join(L)
 
